@@ -43,6 +43,7 @@ def build_pml_campaign(tier, sd):
         add_E(3, 1, 1.0, 2)
         add_E(2, 2, 0.2, 2)
         nrand = 1500
+    campaign.add_PH(cp, tier, rnd, ["promela"], modes=("preload",), pfrac=0.5 if tier == "quick" else None)
     rc = families.RandomCharts(sd * 611 + 9)
     n = 0
     while n < nrand:
